@@ -9,11 +9,11 @@ def run(sc):
     from taskiq.receiver.params_parser import parse_params
     from taskiq.message import TaskiqMessage
     from taskiq.compat import parse_obj_as
-    ANN = {'int': int, 'none': inspect.Parameter.empty, 'any': typing.Any}
+    ANN = {'int': int, 'none': inspect.Parameter.empty, 'any': typing.Any, 'set': typing.Set[int], 'float': float}
     fails = []; n = 0
-    values = ["3", "x", None, 7]
+    values = ["3", "x", None, 7, [], 0]
     for npar in (1, 2, 3):
-        for kinds in itertools.product(('none', 'int', 'any'), repeat=npar):
+        for kinds in itertools.product(('none', 'int', 'any', 'set', 'float') if npar < 3 else ('none', 'int', 'any'), repeat=npar):
             names = ['p%d' % i for i in range(npar)]
             params = [inspect.Parameter(nm, inspect.Parameter.POSITIONAL_OR_KEYWORD, annotation=ANN[k]) for nm, k in zip(names, kinds)]
             sig = inspect.Signature(params); hints = {nm: ANN[k] for nm, k in zip(names, kinds) if k != 'none'}
@@ -32,14 +32,23 @@ def run(sc):
                     def same(a, b): return type(a) is type(b) and a == b
                     if len(msg.args) != len(exp_args) or not all(same(a, b) for a, b in zip(msg.args, exp_args)) or set(msg.kwargs) != set(exp_kw) or not all(same(msg.kwargs[k], exp_kw[k]) for k in exp_kw):
                         if len(fails) < 50:
-                            sigtxt = "def f(" + ", ".join(nm + (": int" if k == 'int' else ": Any" if k == 'any' else "") for nm, k in zip(names, kinds)) + ")"
+                            sigtxt = "def f(" + ", ".join(nm + {'int': ': int', 'any': ': Any', 'set': ': Set[int]', 'float': ': float', 'none': ''}[k] for nm, k in zip(names, kinds)) + ")"
                             fails.append({'key': f"{sigtxt} args={args} kwargs={kwargs}", 'signature': sigtxt, 'sent_args': args, 'sent_kwargs': kwargs, 'received_args': msg.args, 'received_kwargs': msg.kwargs,
                                           'expected_args': exp_args, 'expected_kwargs': exp_kw,
                                           'failed_clauses': [f"C08: {sigtxt} called with args={args} kwargs={kwargs}: task would receive args={msg.args} kwargs={msg.kwargs}, expected args={exp_args} kwargs={exp_kw}"]})
                     # parsing disabled
                     msg2 = TaskiqMessage(task_id='i', task_name='t', labels={}, args=list(args), kwargs=dict(kwargs)); parse_params(None, hints, msg2)
                     if msg2.args != args or msg2.kwargs != kwargs: fails.append({'key': 'disabled', 'failed_clauses': ["C08: parsing disabled but arguments changed"]})
-    return {'reproduced': bool(fails), 'runs': n, 'n_failures': len(fails), 'failures': fails[:400], 'bound': 'signatures with <= 3 positional-or-keyword parameters, values from ["3","x",None,7]'}
+    # two DIFFERENT annotation types that print alike (a model factory called twice, a hot reload): each value must be converted by its own annotation
+    import pydantic
+    A = pydantic.create_model('Payload', x=(int, 1)); B = pydantic.create_model('Payload', y=(str, 'dflt'))
+    for first, second in ((A, B), (B, A)):
+        n += 1
+        for ann, val in ((first, {'x': 5} if first is A else {'y': 'v'}), (second, {'x': 5} if second is A else {'y': 'v'})):
+            sig = inspect.Signature([inspect.Parameter('p0', inspect.Parameter.POSITIONAL_OR_KEYWORD, annotation=ann)])
+            msg = TaskiqMessage(task_id='i', task_name='t', labels={}, args=[dict(val)], kwargs={}); parse_params(sig, {'p0': ann}, msg)
+            if type(msg.args[0]) is not ann: fails.append({'key': f"same-repr annotations, {'A then B' if first is A else 'B then A'}", 'failed_clauses': [f"C08: a value annotated with model {ann!r} (fields {list(ann.model_fields)}) arrived as {type(msg.args[0])!r} with fields {list(getattr(type(msg.args[0]), 'model_fields', {}))}: converted by another annotation's adapter"]})
+    return {'reproduced': bool(fails), 'runs': n, 'n_failures': len(fails), 'failures': fails[:400], 'bound': 'signatures with <= 3 positional-or-keyword parameters (un-annotated / int / Any / Set[int] / float), values from ["3","x",None,7,[],0]; two same-named pydantic models in both orders'}
 
 if __name__ == '__main__':
     sc = json.load(open(sys.argv[1])) if len(sys.argv) > 1 else {}
